@@ -214,31 +214,32 @@ def finding_dunn_singleton():
     return not (v1 == v2 or (v1 != v1 and v2 != v2))
 
 
-def search_c19(seed, tier, failures):
-    for kind, d in failures:
-        if isinstance(d, dict) and "what" in d and "model" not in d["what"].lower():
-            return {"violation": d["what"], **{k: v for k, v in d.items() if k not in ("what", "suite")}}
-    for s in (suite_analysis, suite_indices):
-        rr = s(seed + 1, "quick")
-        for d in rr.bad:
-            if "model" not in d["what"].lower():
-                return {"violation": d["what"], **{k: v for k, v in d.items() if k not in ("what", "suite")}}
-    # tall clusters (narrow-dtype sums) for the indices
+def _dunn_tall(seed, tier=None):
+    """tall clusters (narrow-dtype sums): the Dunn index over every order of three families"""
+    import itertools
     from bblean.metrics import jt_isim_dunn
     rng = np.random.default_rng(seed)
     fam = [(rng.random((n, 32)) < p).astype(np.uint8) for n, p in ((300, 0.95), (100, 0.3), (60, 0.5))]
     vals = set()
-    import itertools
     for perm in itertools.permutations(range(3)):
         vals.add(float(jt_isim_dunn([fam[i] for i in perm], input_is_packed=False)))
     if len(vals) > 1:
         return {"violation": f"Dunn depends on the order of (non-singleton) clusters: {sorted(vals)}",
-                "cluster_sizes": [300, 100, 60]}
+                "cluster_sizes": [300, 100, 60], "dunn_seed": seed}
     return None
 
 
+def search_c19(seed, tier, failures):
+    import replay_util
+    return replay_util.make_search([suite_analysis, suite_indices], extra=_dunn_tall)(seed, tier, failures)
+
+
 def replay_c19(payload):
-    return search_c19(payload.get("seed", 1) - 1, "quick", []) is None
+    import replay_util
+    fi = payload.get("failing_input") or {}
+    if "dunn_seed" in fi:
+        return _dunn_tall(fi["dunn_seed"]) is None
+    return replay_util.make_replay([suite_analysis, suite_indices])(payload)
 
 
 if __name__ == "__main__":
